@@ -5,7 +5,7 @@ wt=/tmp/seedcheck
 git -C /repo worktree remove --force $wt 2>/dev/null
 git -C /repo worktree add --detach $wt HEAD -q || exit 2
 for id in "$@"; do
-  dst=/verif/seeded/$id
+  dst=${SEED_DST:-/verif/seeded}/$id
   [ -f $dst/patch.diff ] || { echo "$id: no patch"; continue; }
   git -C $wt checkout -q -- . ; git -C $wt clean -fdq -e target
   if ! git -C $wt apply $dst/patch.diff; then echo "$id: patch does not apply"; continue; fi
